@@ -84,6 +84,11 @@ func newScanner(snapshot *KVSnapshot, startKey []byte, endKey []byte, batchSize 
 		reverse:      reverse,
 		nextEndKey:   endKey,
 	}
+	if len(startKey) > 0 && len(endKey) > 0 && kv.CmpKey(startKey, endKey) >= 0 {
+		// Empty range: nothing to read. A reverse scan would otherwise send its lower bound to the
+		// region that ends at that key, which does not contain it.
+		scanner.eof = true
+	}
 	err := scanner.Next()
 	if tikverr.IsErrNotFound(err) {
 		return scanner, nil
@@ -206,6 +211,11 @@ func (s *Scanner) getData(bo *retry.Backoffer) error {
 	// the states in request need to keep when retry request.
 	var readType string
 	for {
+		if s.reverse && len(s.nextStartKey) > 0 && len(s.nextEndKey) > 0 && kv.CmpKey(s.nextStartKey, s.nextEndKey) >= 0 {
+			// The remaining range is empty (the last key returned was the lower bound itself).
+			s.eof = true
+			return nil
+		}
 		if !s.reverse {
 			loc, err = s.snapshot.store.GetRegionCache().LocateKey(bo, s.nextStartKey)
 		} else {
